@@ -452,6 +452,11 @@ func (p *notifier) notifyNow(event Event) error {
 	dbEvent.Latest = &now
 	if p.isPersistent() {
 		if err := p.db.WriteShelf(p.ctx, p.shelfName(), func(writer stoabs.Writer) error {
+			// The event could have been marked as Finished while the receiver was running (e.g. the payload of a private TX
+			// arrived while it was being queried). Don't re-create it, otherwise the receiver is called again for a finished event.
+			if _, err := writer.Get(stoabs.BytesKey(dbEvent.Hash.Slice())); errors.Is(err, stoabs.ErrKeyNotFound) {
+				return nil
+			}
 			return p.writeEvent(writer, *dbEvent)
 		}); err != nil {
 			return retry.Unrecoverable(err)
